@@ -143,7 +143,7 @@ def judge(ck, inp, probe, outputs, build_ok, observed, ans):
                                           profile_file=fi in profile_files)
             impl_files.append({'prefix_kept': kept, 'appended': lines})
         impl = {'end': impl_end, 'trace': impl_trace, 'files': impl_files}
-        model = {'end': ms['end'], 'trace': ms['trace'], 'files': ms['files']}
+        model = {'end': ms['end'], 'trace': ms['trace'], 'files': [{'prefix_kept': f['prefix_kept'], 'appended': f['appended']} for f in ms['files']]}
         ck.count('end:' + impl_end)
         if impl != model:
             what = [k for k in impl if impl[k] != model[k]]
